@@ -228,6 +228,11 @@ impl<Data> IoLoopInner for LoopInner<'_, Data> {
         if let Ok(slot) = self.sources.borrow_mut().get_mut(token.inner) {
             slot.source = None;
         }
+        // The IO object can outlive its adapter (`into_inner`, or another handle to the same file):
+        // take its fd out of the poller now, nobody else will.
+        if let Ok(poll) = self.poll.try_borrow() {
+            let _ = poll.unregister(unsafe { BorrowedFd::borrow_raw(dispatcher.borrow().fd) });
+        }
     }
 }
 
